@@ -14,17 +14,22 @@
    SmtpError / Timeout / socket.error reach _run, which sets a transient result unless one is set already;
    _disconnect (QUIT, swallowing everything) always runs last.
 
+   NMsg > 1: the connection is reused (idle_timeout set): when _deliver has returned normally the client polls the
+   next message and sends it over the same connection; `done` keeps the results so far, `rep` starts afresh.
+
    hist records what the downstream was asked and answered, in order: TLC's terminal states are the complete
    set of downstream scripts for the bound, and each is replayed against the real relay (harness/drivers/c11m.py),
    which must hold the same conversation and return the same result.
 
    Deviation switches (FALSE = the code as it is now):
      KF_FlushOutside   the reply to pipelined message data is awaited outside the data Timeout  (D12, fixed df614a7)
+     KF_RsetBypass     RSET does not clear LmtpClient's list of accepted recipients (seeded change C19b-m2): after a
+                       refused DATA the next message on the connection waits for replies that never come
      KF_FirstRcptClass when every recipient is refused the whole message fails with the class of the FIRST refusal,
                        also for recipients refused with the other class                        (D28) *)
 EXTENDS Integers, Sequences, FiniteSets, TLC
 
-CONSTANTS NRcpt, Lmtp, Pipelining, KF_FlushOutside, KF_FirstRcptClass
+CONSTANTS NRcpt, Lmtp, Pipelining, NMsg, KF_FlushOutside, KF_FirstRcptClass, KF_RsetBypass
 
 Rcpts == 1..NRcpt
 None == "none"
@@ -43,12 +48,15 @@ VARIABLES pc,       \* where the client is
                     \* answers them all the same
           result,   \* [k |-> "none"] | [k |-> "raise", c |-> "T"|"P"] | [k |-> "map", per |-> <<"ok"|"T"|"P", ...>>]
           inexc,    \* the SmtpRelayError (class) _deliver is handling, or None
-          hist,     \* the conversation: sequence of [s, i, a]
-          viol
-vars == <<pc, wait, after, queued, scope, rep, pipe, alive, mute, pdata, left, result, inexc, hist, viol>>
+          hist,     \* the conversation: sequence of [m, s, i, a] (m: which message)
+          viol,
+          msg,      \* number of the message being delivered
+          done,     \* results of the messages delivered before it on this connection
+          carry     \* accepted recipients of earlier transactions that LmtpClient still remembers (0 unless KF_RsetBypass)
+vars == <<pc, wait, after, queued, scope, rep, pipe, alive, mute, pdata, left, result, inexc, hist, viol, msg, done, carry>>
 
 Keys == {<<"conn", 0>>, <<"banner", 0>>, <<"ehlo", 0>>, <<"helo", 0>>, <<"mail", 0>>, <<"data", 0>>, <<"rset", 0>>,
-         <<"quit", 0>>} \cup {<<"rcpt", i>> : i \in Rcpts} \cup {<<"eod", i>> : i \in 0..NRcpt}
+         <<"quit", 0>>} \cup {<<"rcpt", i>> : i \in Rcpts} \cup {<<"eod", i>> : i \in 0..(NRcpt * NMsg)}
 Answers(k) == IF k[1] = "conn" THEN {"ok", "drop", "stall"}
               ELSE IF k[1] = "ehlo" /\ ~Lmtp THEN {"ok", "t4", "p5", "e500", "bad", "drop", "stall"}
               ELSE {"ok", "t4", "p5", "bad", "drop", "stall"}
@@ -59,7 +67,7 @@ NoResult == [k |-> "none"]
 
 Init == /\ pc = "connect" /\ wait = <<>> /\ after = None /\ queued = <<>> /\ scope = "none"
         /\ rep = [k \in Keys |-> None] /\ pipe = FALSE /\ alive = TRUE /\ mute = FALSE /\ pdata = FALSE /\ left = <<>>
-        /\ result = NoResult /\ inexc = None /\ hist = <<>> /\ viol = {}
+        /\ result = NoResult /\ inexc = None /\ hist = <<>> /\ viol = {} /\ msg = 1 /\ done = <<>> /\ carry = 0
 
 (* ---- begin a blocking call: read everything requested so far plus `more`, under Timeout `sc`, then go to `nxt` *)
 Await(more, sc, nxt) ==
@@ -73,7 +81,7 @@ Abort == IF after = "closed" THEN /\ pc' = "closed" /\ wait' = <<>> /\ UNCHANGED
          ELSE ToRunHandler
 \* the downstream does not answer this request: it has gone silent, or it is reading message content and takes
 \* command lines for content
-Silent(k) == mute \/ (pdata /\ k[1] # "eod")
+Silent(k) == mute \/ (pdata /\ k[1] # "eod") \/ (k[1] = "eod" /\ k[2] > NRcpt)      \* a reply nobody owes
 
 Read ==
   /\ pc = "read" /\ wait # <<>>
@@ -85,7 +93,7 @@ Read ==
                                     /\ UNCHANGED <<wait, queued, scope, result, inexc>>
              ELSE Abort /\ UNCHANGED viol
      ELSE \E a \in Answers(k) :
-            /\ hist' = Append(hist, [s |-> k[1], i |-> k[2], a |-> a])
+            /\ hist' = Append(hist, [m |-> msg, s |-> k[1], i |-> k[2], a |-> a])
             /\ UNCHANGED <<after, pipe>>
             /\ pdata' = (IF k[1] = "eod" THEN FALSE ELSE pdata)
             /\ IF a = "stall"
@@ -111,7 +119,7 @@ Leftover ==
      IF ~alive \/ mute THEN /\ left' = <<>> /\ UNCHANGED <<hist, alive, mute, pdata>>
      ELSE IF pdata /\ k[1] # "eod" THEN /\ left' = Tail(left) /\ UNCHANGED <<hist, alive, mute, pdata>>
      ELSE \E a \in {"ok", "p5", "drop", "stall"} :
-            /\ hist' = Append(hist, [s |-> k[1], i |-> k[2], a |-> a])
+            /\ hist' = Append(hist, [m |-> msg, s |-> k[1], i |-> k[2], a |-> a])
             /\ left' = (IF a \in {"drop", "stall"} THEN <<>> ELSE Tail(left))
             /\ alive' = (a # "drop") /\ mute' = (a = "stall")
             /\ pdata' = (IF k[1] = "data" /\ a = "ok" THEN TRUE ELSE IF k[1] = "eod" THEN FALSE ELSE pdata)
@@ -156,8 +164,8 @@ MailChk == /\ pc = "mail_chk"
               ELSE /\ Await(<< <<"rcpt", 1>> >>, "cmd", "rcpt_next") /\ UNCHANGED inexc
            /\ UNCHANGED <<rep, pipe, alive, mute, pdata, left, result, hist, viol>>
 RcptNext == /\ pc = "rcpt_next"
-            /\ LET done == Cardinality({i \in Rcpts : rep[<<"rcpt", i>>] # None}) IN
-               IF done < NRcpt THEN Await(<< <<"rcpt", done + 1>> >>, "cmd", "rcpt_next")
+            /\ LET nsent == Cardinality({i \in Rcpts : rep[<<"rcpt", i>>] # None}) IN
+               IF nsent < NRcpt THEN Await(<< <<"rcpt", nsent + 1>> >>, "cmd", "rcpt_next")
                ELSE pc' = "data" /\ UNCHANGED <<wait, after, queued, scope>>
             /\ UNCHANGED <<rep, pipe, alive, mute, pdata, left, result, inexc, hist, viol>>
 Data == /\ pc = "data" /\ Await(<< <<"data", 0>> >>, "cmd", "check")
@@ -168,7 +176,8 @@ AllRefused == Accepted = {}
 \* the end-of-data replies the client will expect: one (SMTP) or one per accepted recipient (LMTP)
 RECURSIVE SeqOf(_)
 SeqOf(S) == IF S = {} THEN <<>> ELSE LET m == CHOOSE x \in S : \A y \in S : x <= y IN << <<"eod", m>> >> \o SeqOf(S \ {m})
-EodKeys == IF Lmtp THEN SeqOf(Accepted) ELSE << <<"eod", 0>> >>
+Stale == [j \in 1..carry |-> <<"eod", NRcpt + j>>]
+EodKeys == IF Lmtp THEN SeqOf(Accepted) \o Stale ELSE << <<"eod", 0>> >>
 RefusedClasses == {Cls(rep[<<"rcpt", i>>]) : i \in Rcpts}
 
 \* _check_replies, and the except clause of _send_envelope (an accepted DATA must still be ended)
@@ -195,7 +204,7 @@ DeliverExc ==
   /\ pc = "deliver_exc"
   /\ result' = (IF inexc = "mixed" THEN [k |-> "map", per |-> PerRcptRefusals] ELSE Raise(inexc))
   /\ inexc' = None
-  /\ Await(<< <<"rset", 0>> >>, "cmd", "disconnect")
+  /\ Await(<< <<"rset", 0>> >>, "cmd", "next")
   /\ UNCHANGED <<rep, pipe, alive, mute, pdata, left, hist, viol>>
 
 \* _send_message_data
@@ -210,13 +219,13 @@ DataChk ==
      THEN LET e == rep[<<"eod", 0>>] IN
           IF IsErr(e) THEN /\ inexc' = Cls(e) /\ pc' = "deliver_exc" /\ UNCHANGED <<result, wait, after, queued, scope>>
           ELSE /\ result' = [k |-> "map", per |-> [i \in Rcpts |-> IF i \in Accepted THEN "ok" ELSE Cls(rep[<<"rcpt", i>>])]]
-               /\ pc' = "disconnect" /\ UNCHANGED <<inexc, wait, after, queued, scope>>
+               /\ pc' = "next" /\ UNCHANGED <<inexc, wait, after, queued, scope>>
      ELSE LET per == [i \in Rcpts |-> IF i \notin Accepted THEN Cls(rep[<<"rcpt", i>>])
                                        ELSE IF IsErr(rep[<<"eod", i>>]) THEN Cls(rep[<<"eod", i>>]) ELSE "ok"] IN
           /\ result' = [k |-> "map", per |-> per] /\ UNCHANGED inexc
           /\ IF \E i \in Accepted : IsErr(rep[<<"eod", i>>])
-             THEN Await(<< <<"rset", 0>> >>, "cmd", "disconnect")
-             ELSE pc' = "disconnect" /\ UNCHANGED <<wait, after, queued, scope>>
+             THEN Await(<< <<"rset", 0>> >>, "cmd", "next")
+             ELSE pc' = "next" /\ UNCHANGED <<wait, after, queued, scope>>
   /\ UNCHANGED <<rep, pipe, alive, mute, pdata, left, hist, viol>>
 
 \* _disconnect: QUIT under the command Timeout, everything swallowed; a dropped connection cannot even be written to
@@ -228,44 +237,61 @@ Disconnect ==
 Closed == /\ pc = "closed" /\ left = <<>> /\ pc' = "done"
           /\ UNCHANGED <<wait, after, queued, scope, rep, pipe, alive, mute, pdata, left, result, inexc, hist, viol>>
 
-Next == Read \/ Leftover \/ Connect \/ Banner \/ BannerChk \/ EhloChk \/ HeloChk \/ Mail \/ MailChk \/ RcptNext \/ Data \/ Check
+\* _deliver has returned: without an idle timeout the client disconnects; with one it polls the next message
+TxKeys == {k \in Keys : k[1] \in {"mail", "rcpt", "data", "eod", "rset"}}
+NextMsg ==
+  /\ pc = "next"
+  /\ IF NMsg > 1 /\ msg < NMsg /\ alive /\ ~mute /\ ~pdata
+     THEN /\ msg' = msg + 1 /\ done' = Append(done, result) /\ result' = NoResult
+          /\ rep' = [k \in Keys |-> IF k \in TxKeys THEN None ELSE rep[k]]
+          /\ carry' = (IF KF_RsetBypass /\ Lmtp /\ IsErr(rep[<<"data", 0>>]) THEN carry + Cardinality(Accepted) ELSE 0)
+          /\ pc' = "mail"
+     ELSE /\ pc' = "disconnect" /\ UNCHANGED <<msg, done, result, rep, carry>>
+  /\ UNCHANGED <<wait, after, queued, scope, pipe, alive, mute, pdata, left, inexc, hist, viol>>
+
+Core == Read \/ Leftover \/ Connect \/ Banner \/ BannerChk \/ EhloChk \/ HeloChk \/ Mail \/ MailChk \/ RcptNext \/ Data \/ Check
         \/ DeliverExc \/ SendData \/ DataChk \/ Disconnect \/ Closed
+Next == (Core /\ UNCHANGED <<msg, done, carry>>) \/ NextMsg
 Spec == Init /\ [][Next]_vars
 
 (* ------------------------------------------------------------------ properties *)
 Got(s, i) == rep[<<s, i>>]
-Failures == {n \in 1..Len(hist) : hist[n].a # "ok" /\ hist[n].s \notin {"quit", "rset"}}
+Failures == {n \in 1..Len(hist) : hist[n].m = msg /\ hist[n].a # "ok" /\ hist[n].s \notin {"quit", "rset"}}
+\* a message's delivery is over (its result is final): judged here, once per message
+Over == pc \in {"next", "done"}
 OnlyRcptRefusals == \A n \in Failures : hist[n].s = "rcpt" /\ hist[n].a \in {"t4", "p5"}
 Reported(i) == IF result.k = "raise" THEN result.c ELSE result.per[i]
 
 \* every attempt ends, with a result
-C11_TotalResult == pc = "done" => result.k # "none"
+C11_TotalResult == Over => result.k # "none"
 \* delivered only if the downstream accepted the recipient and the message
 C11_DeliveredImpliesAccepted ==
-  (pc = "done" /\ result.k = "map") =>
+  (Over /\ result.k = "map") =>
      \A i \in Rcpts : result.per[i] = "ok" => /\ Got("rcpt", i) = "ok"
                                               /\ Got("eod", IF Lmtp THEN i ELSE 0) = "ok"
 \* when the only thing that went wrong is that recipients were refused, each is reported with its own class
 C11_OwnClass ==
-  (pc = "done" /\ OnlyRcptRefusals /\ Failures # {}) =>
+  (Over /\ OnlyRcptRefusals /\ Failures # {}) =>
      \A i \in Rcpts : IsErr(Got("rcpt", i)) => Reported(i) = Cls(Got("rcpt", i))
 \* a refused MAIL decides the whole message, whatever is answered to the commands PIPELINING had already sent
-EarlyX == \E n \in 1..Len(hist) : hist[n].a \in {"bad", "drop", "stall"} /\ hist[n].s \notin {"eod", "rset", "quit"}
+EarlyX == \E n \in 1..Len(hist) : hist[n].m = msg /\ hist[n].a \in {"bad", "drop", "stall"} /\ hist[n].s \notin {"eod", "rset", "quit"}
 C11_MailVerdict ==
-  (pc = "done" /\ IsErr(Got("mail", 0)) /\ ~EarlyX) => result = Raise(Cls(Got("mail", 0)))
+  (Over /\ IsErr(Got("mail", 0)) /\ ~EarlyX) => result = Raise(Cls(Got("mail", 0)))
 \* a whole-message failure has the class of something the downstream did
 C11_Class ==
-  (pc = "done" /\ result.k = "raise") =>
+  (Over /\ result.k = "raise") =>
      IF result.c = "P" THEN \E n \in Failures : hist[n].a \in {"p5", "e500"}
      ELSE \E n \in Failures : hist[n].a \in {"t4", "bad", "drop", "stall"}
-\* nothing went wrong => everything delivered
+\* nothing went wrong (with THIS message: what happened to earlier ones on the same connection does not count)
+\* => everything delivered.  For the second message on a reused connection this is "a failed transaction is reset
+\* before the next message uses it" 
 C11_NoSpuriousFailure ==
-  (pc = "done" /\ Failures = {}) => result.k = "map" /\ \A i \in Rcpts : result.per[i] = "ok"
+  (Over /\ Failures = {}) => result.k = "map" /\ \A i \in Rcpts : result.per[i] = "ok"
 \* every blocking step is inside a Timeout
 C14_Bounded == viol = {} /\ pc # "hung"
 \* the client never waits for a reply it did not ask for, nor leaves one unread before the next command's reply
 C10_QueueDrained == pc = "done" => (queued = <<>> \/ ~alive \/ mute \/ \E n \in 1..Len(hist) : hist[n].a = "bad")
 
 \* the complete behaviours, for replay
-Emit == pc = "done" => PrintT(<<"BEH", hist, result>>)
+Emit == pc = "done" => PrintT(<<"BEH", hist, Append(done, result)>>)
 =============================================================================
